@@ -45,12 +45,14 @@ structure Label where
   ver : Nat
   minTemp : Nat
   start : Nat
+  maxTtl : Nat
 
 def parseLabel (label : String) : Label :=
   let ws := words label
   { kind := (kv? ws "kind").getD "", owner := (kvNat? ws "owner").getD 0, mgr := (kvNat? ws "mgr").getD 0,
     init := (kvInt? ws "init").getD 0, cap := (kvInt? ws "cap").getD 0, ver := (kvNat? ws "ver").getD 0,
-    minTemp := (kvNat? ws "min_temp").getD 1, start := (kvNat? ws "start").getD 100 }
+    minTemp := (kvNat? ws "min_temp").getD 1, start := (kvNat? ws "start").getD 100,
+    maxTtl := (kvNat? ws "max_ttl").getD MAX_TTL }
 
 def ofExcept {α} (f : α → St) : Except Err α → St
   | .ok a => f a
@@ -68,7 +70,7 @@ def initM (label : String) : M :=
     else if l.kind = "cap" then ofExcept .cap (CTok.construct l.start l.cap)
     else if l.kind = "mig" then .mig (Mig.init l.owner) l.ver
     else .bad
-  { cfg := ⟨l.minTemp, MAX_TTL⟩, st := st, now := l.start }
+  { cfg := ⟨l.minTemp, l.maxTtl⟩, st := st, now := l.start }
 
 /-! ### op lines -/
 
@@ -178,6 +180,8 @@ def applyModel (cfg : Cfg) (st : St) (auth : List Nat) (op : GOp) : Option St :=
   | .ptok s, .tok o => ok .ptok (PTok.apply cfg s auth (.tok o))
   | .ptok s, .pause c => ok .ptok (PTok.apply cfg s auth (.pause c))
   | .ptok s, .unpause c => ok .ptok (PTok.apply cfg s auth (.unpause c))
+  | .pcnt s, .tok (.advance _) => some (.pcnt s)
+  | .mig s v, .tok (.advance _) => some (.mig s v)
   | .pcnt s, .increment => ok .pcnt (PCnt.apply s auth .increment)
   | .pcnt s, .reset => ok .pcnt (PCnt.apply s auth .emergencyReset)
   | .pcnt s, .pause c => ok .pcnt (PCnt.apply s auth (.pause c))
@@ -224,15 +228,18 @@ def stepLine (m : M) (line : String) : M × String :=
       let dem := match op with
         | .tok (.advance _) => "-"
         | _ => showList toString ((demandedBy m.st op).mergeSort (· ≤ ·))
-      ({ m with st := st' },
-        obsLine "ok" st' m.now (retOf st' op) (if evs.isEmpty then "-" else ";".intercalate evs) dem)
+      let now' := match op with
+        | .tok (.advance n) => m.now + n
+        | _ => m.now
+      ({ m with st := st', now := now' },
+        obsLine "ok" st' now' (retOf st' op) (if evs.isEmpty then "-" else ";".intercalate evs) dem)
     | none => (m, obsLine "err" m.st m.now "-" "-" "-")
 
 /-! ### the monitor (implementation side) -/
 
 structure Mon where
   l : Label
-  paused : Bool               -- observed flag after the previous call
+  paused : Bool               -- ghost flag: moved only by accepted pause / unpause calls
   ghost : List Bool           -- list status per party, from accepted list changes only
   credit : Bool               -- an enable / upgrade happened since the last completed migration
   prev : Option String        -- previous observation minus tag, `ev=`, `dem=` and `ret=`
@@ -292,10 +299,15 @@ def check (m : Mon) (opl obs : String) : Mon × Option String :=
     if ok ∧ fam = "gate" ∧ (name = "enable" ∨ name = "upgrade") then true
     else if ok ∧ fam = "gate" ∧ (name = "migrate" ∨ name = "complete") then false
     else m.credit
-  let m' : Mon := { m with paused := if hasPause then pausedNow else false, ghost := ghost', credit := credit',
+  let paused' : Bool :=
+    if ok ∧ hasPause ∧ fam = "gate" ∧ name = "pause" then true
+    else if ok ∧ hasPause ∧ fam = "gate" ∧ name = "unpause" then false
+    else m.paused
+  let idle : Bool := fam = "fungible" ∧ name = "advance"
+  let m' : Mon := { m with paused := paused', ghost := ghost', credit := credit',
                            prev := some (stable obs) }
   let sup := (kvInt? ows "sup").getD 0
-  let capv := (kvInt? ows "cap").getD 0
+  let capv := (kv? ows "cap").getD "?"
   let migratingNow : Bool := (kv? ows "migrating") == some "1"
   let fail : Option String :=
     -- a rejected call has no observable effect
@@ -313,10 +325,13 @@ def check (m : Mon) (opl obs : String) : Mon × Option String :=
     else if hasPause ∧ ok ∧ fam = "gate" ∧ (name = "pause" ∨ name = "unpause")
         ∧ (a.head? ≠ some m.l.owner ∨ ¬ auth.contains m.l.owner) then
       some s!"site=pausable.owner.{kind}.{name} accepted without the owner's authorization"
-    else if hasPause ∧ pausedNow ≠ (if ok ∧ fam = "gate" ∧ name = "pause" then true
-        else if ok ∧ fam = "gate" ∧ name = "unpause" then false else m.paused) then
+    else if hasPause ∧ idle ∧ pausedNow ≠ paused' then
+      some s!"site=pause.idle.changed.{kind} paused() went from {m.paused} to {pausedNow} while nothing was called (ledger moved by {(kvNat? ws "n").getD 0})"
+    else if hasPause ∧ pausedNow ≠ paused' then
       some s!"site=pausable.flag.{kind} paused() does not follow the accepted pause / unpause calls"
     -- lists
+    else if isList ∧ idle ∧ listNow ≠ ghost' then
+      some s!"site=list.idle.changed.{kind} allowed()/blocked() went from {m.ghost} to {listNow} while nothing was called (ledger moved by {(kvNat? ws "n").getD 0})"
     else if isList ∧ listNow ≠ ghost' then
       some s!"site=list.getter.{kind} allowed()/blocked() = {listNow} but accepted list changes give {ghost'}"
     else if isList ∧ ok ∧ fam = "fungible" ∧
@@ -326,13 +341,17 @@ def check (m : Mon) (opl obs : String) : Mon × Option String :=
         ∧ (a.getD 1 99 ≠ m.l.mgr ∨ ¬ auth.contains m.l.mgr) then
       some s!"site=list.role.{kind}.{name} list changed without the manager's authorization"
     -- cap
-    else if kind = "cap" ∧ sup > capv then
-      some s!"site=capped.exceeded total_supply {sup} > cap {capv}"
-    else if kind = "cap" ∧ capv ≠ m.l.cap then
+    else if kind = "cap" ∧ idle ∧ capv ≠ toString m.l.cap then
+      some s!"site=cap.idle.changed the cap went from {m.l.cap} to {capv} while nothing was called (ledger moved by {(kvNat? ws "n").getD 0})"
+    else if kind = "cap" ∧ capv ≠ toString m.l.cap then
       some s!"site=capped.cap the cap moved from {m.l.cap} to {capv}"
+    else if kind = "cap" ∧ sup > m.l.cap then
+      some s!"site=capped.exceeded total_supply {sup} > cap {m.l.cap}"
     -- migration
     else if kind = "mig" ∧ ok ∧ fam = "gate" ∧ (name = "migrate" ∨ name = "ensure") ∧ ¬ m.credit then
       some s!"site=migration.without_upgrade.{name} accepted with no enable / upgrade since the last completion"
+    else if kind = "mig" ∧ idle ∧ migratingNow ≠ credit' then
+      some s!"site=migration.idle.changed Migrating went from {m.credit} to {migratingNow} while nothing was called (ledger moved by {(kvNat? ws "n").getD 0})"
     else if kind = "mig" ∧ migratingNow ≠ credit' then
       some s!"site=migration.flag Migrating = {migratingNow} but the accepted calls give {credit'}"
     else if kind = "mig" ∧ ok ∧ fam = "gate" ∧ (name = "migrate" ∨ name = "upgrade")
